@@ -348,7 +348,26 @@ def _quote_ok(q):
 # ------------------------------------------------------------------------------------------------ interpreter + oracle
 
 def run_case(case, sess, guards=frozenset()):
-    """-> (nontrivial, classes, failures, skipped_ops, excluded)"""
+    """-> (nontrivial, classes, failures, skipped_ops, excluded)
+
+    A random-name collision or equal basenames inside an input group make several clauses fail at once (whichever sees
+    the shared path first); such cases are reported under the signature of the cause so that signatures are stable."""
+    sess.causes = []
+    nt, classes, fails, skipped, excluded = _run_case(case, sess, guards)
+    if fails and sess.causes:
+        keep = [f for f in fails if f[0] in GUARDABLE]
+        other = [f for f in fails if f[0] not in GUARDABLE]
+        if other:
+            order = {s: i for i, s in enumerate(GUARDABLE)}
+            sig, msg = sorted(sess.causes, key=lambda c: order[c[0]])[0]
+            if not any(f[0] == sig for f in keep):
+                keep.append((sig, 'distinct resources never share a path',
+                             f'{msg}; observed: [{other[0][0]}] {other[0][2]}'))
+        fails = keep
+    return nt, classes, fails, skipped, excluded
+
+
+def _run_case(case, sess, guards=frozenset()):
     hb = sess.hb
     BatchException = sess.BatchException
     sess.fresh(case, guards)
@@ -371,6 +390,7 @@ def run_case(case, sess, guards=frozenset()):
 
     gid = [0]
     any_group = any_ext = False
+    roots_used = set()
 
     with warnings.catch_warnings(), contextlib.redirect_stdout(out):
         warnings.simplefilter('ignore')
@@ -383,6 +403,11 @@ def run_case(case, sess, guards=frozenset()):
                     draws.purpose = 'root'
                     r.obj = b.read_input(r.path)
                     r.root = draws.log[-1][1]
+                    if r.root in roots_used:
+                        sess.causes.append(('input-root-collision',
+                                            f'read_input({r.path!r}) drew root {r.root!r}, already used by an earlier input: '
+                                            f'Batch._new_input_resource_file does not check uniqueness'))
+                    roots_used.add(r.root)
                     inputs.append(r)
                 elif kind == 'ingroup':
                     members = {}
@@ -406,6 +431,16 @@ def run_case(case, sess, guards=frozenset()):
                     draws.purpose = 'root'
                     g.obj = b.read_input_group(**members)
                     g.root = draws.log[-1][1]
+                    if g.root in roots_used:
+                        sess.causes.append(('input-root-collision',
+                                            f'read_input_group drew root {g.root!r}, already used by an earlier input: '
+                                            f'Batch.read_input_group does not check uniqueness'))
+                    roots_used.add(g.root)
+                    bns = [posixpath.basename(p.rstrip('/')) for p in members.values()]
+                    if len(set(bns)) < len(bns):
+                        sess.causes.append(('input-group-basename-collision',
+                                            f'read_input_group(**{members}) places every member at <root>/<basename>, so '
+                                            f'members with equal basenames share one local path'))
                     for n, p in members.items():
                         m = new_res('inmem', group=g, mname=n, path=p)
                         m.obj = g.obj[n]
@@ -418,6 +453,10 @@ def run_case(case, sess, guards=frozenset()):
                     draws.purpose = 'job'
                     mj.obj = b.new_job(name=name) if len(jobs) % 2 == 0 else b.new_bash_job(name=name)
                     mj.token = draws.log[-1][1]
+                    if any(o.token == mj.token and o.name == name for o in jobs):
+                        sess.causes.append(('job-token-collision',
+                                            f'two jobs named {name!r} both drew token {mj.token!r}: Batch._unique_job_token '
+                                            f'never records the tokens it hands out, so both use scratch dir <name>-<token>'))
                     draws.purpose = 'root'
                     jobs.append(mj)
                 elif kind == 'declare':
@@ -764,11 +803,33 @@ def run_case(case, sess, guards=frozenset()):
         need, producers = mj.need, mj.producers
         explained = 0
         mj.in_local = {}
-        for r in need.values():
+        links = {}
+        for piece in (mj.symlinks.split('; ') if mj.symlinks else []):
+            try:
+                w = shlex.split(piece)
+            except ValueError:
+                w = []
+            if len(w) == 4 and w[:2] == ['ln', '-sf']:
+                links[w[3]] = w[2]
+        claimed = set()
+        group_mentions = {t.gid for t in mj.consumed if isinstance(t, MGrp)}
+        def loc(r):
             L = expected_local(r, None)
+            if L is None and r.kind == 'inmem' and r.group.gid in group_mentions and r.group.G is not None:
+                L = links.get(r.group.G + '.' + r.mname)     # the documented handle <group root>.<member>
+            return L
+
+        for r in sorted(need.values(), key=lambda r: (loc(r) is None, r.rid)):
+            L = loc(r)
             if r.kind in ('in', 'inmem'):
                 cands = [(R, Lx) for R, Lx in mj.inputs if (L is not None and Lx == L) or
-                         (L is None and posixpath.basename(Lx) == r.fname() and (R == r.path or '://' not in r.path))]
+                         (L is None and (R, Lx) not in claimed and posixpath.basename(Lx) == r.fname()
+                          and (R == r.path or '://' not in r.path))]
+                if L is None and r.kind == 'inmem' and len(cands) > 1:
+                    # an unmentioned member of an input group: prefer the copy sitting next to a located sibling
+                    dirs = {posixpath.dirname(mj.in_local[m.rid]) for m in r.group.members.values() if m.rid in mj.in_local}
+                    cands.sort(key=lambda c: posixpath.dirname(c[1]) not in dirs)
+                claimed.update(cands[:1])
                 if not cands:
                     fail('consumer-input-missing', 'the consumer downloads every resource it reads',
                          f'job {mj.idx} reads {r.label()} (local {L}) but input_files = {mj.inputs}')
@@ -1126,7 +1187,7 @@ def strategy():
 
 
 def plan(tier):
-    n = 400 if tier == 'quick' else 12000
+    n = 1000 if tier == 'quick' else 25000
     # shards 0-3 search the whole domain (and re-find known findings); the others exclude, by construction, the
     # triggering steps of findings listed as known so the search continues behind them
     return [dict(kind='hyp', n=n, guarded=(i >= 4)) for i in range(16)]
